@@ -124,8 +124,22 @@ func c13HpDigest(u *c13HpDialer) string {
 	if len(eps) > 0 {
 		es = strings.Join(eps, " ")
 	}
-	return fmt.Sprintf("dials=%d eps=%s pool=%s", len(u.conns), es, ps)
+	// what handlePkt registered with the generation's conn-state tracker: tracked tuples and holdings
+	ents, refs := 0, 0
+	if c13HpCore != nil {
+		tr := c13HpCore.getUdpConnStateTracker()
+		tr.mu.Lock()
+		for _, e := range tr.entries {
+			ents++
+			refs += e.refs
+		}
+		tr.mu.Unlock()
+	}
+	return fmt.Sprintf("dials=%d eps=%s pool=%s trk=%d:%d", len(u.conns), es, ps, ents, refs)
 }
+
+// the control plane's core (conn-state owner of every endpoint handlePkt creates)
+var c13HpCore *controlPlaneCore
 
 // conn -> endpoint, learnt at the yield point create.beforePublish (every endpoint object passes it)
 var c13HpEndpointOf = map[*c13HpConn]*UdpEndpoint{}
@@ -194,8 +208,11 @@ func c13RunHp(t *testing.T, stats *VStats) {
 				func(bool, *componentdialer.NetworkType, bool) {})
 			outbounds := make([]*ob.DialerGroup, int(consts.OutboundUserDefinedMin)+1)
 			outbounds[consts.OutboundUserDefinedMin] = grp
-			cp := &ControlPlane{log: logger, controlPlaneGenerationState: controlPlaneGenerationState{outbounds: outbounds}}
+			c13HpCore = &controlPlaneCore{log: logger}
+			c13HpCore.udpConnStateTracker.Store(newUdpConnStateTracker())
+			cp := &ControlPlane{log: logger, core: c13HpCore, controlPlaneGenerationState: controlPlaneGenerationState{outbounds: outbounds}}
 			cp.udpRouteScopeSensitive = rr.Chance(0.4)
+			s.Emit(fmt.Sprintf("hp consts %d %s", MaxRetry, c13SniffPortRanges()), "ok")
 			s.Emit("hp reset", "ok")
 			// a sequence concentrates on one or two flows so that classification changes hit live endpoints
 			nsrc, ndst := 1+rr.Intn(2), 1+rr.Intn(3)
